@@ -338,6 +338,17 @@ def _situation(att, p, p2, bad, env):
             return "loop-lower-bound-not-zero"
         if names_read(n.body) & names_written(n.body):
             return "recomputed-iterations-see-writes-of-later-iterations"
+    if op == "reuse_buffer":
+        try:
+            other = locate(p, a["other"])._impl._node
+            if att["path"][:-1] == a["other"][:-1] and att["path"][-1][1] > a["other"][-1][1]:
+                return "kept-buffer-allocated-after-the-replaced-one"
+            rest = _rest_of_block(locate(p, a["other"]))
+            direct = any(isinstance(x, (LoopIR.Assign, LoopIR.Reduce)) and x.name == other.name for st in rest for x in walk(st))
+            if not direct and any(isinstance(x, LoopIR.Call) for st in rest for x in walk(st)):
+                return "replaced-buffer-written-only-through-a-call"
+        except Exception:
+            pass
     if op == "stage_mem":
         buf = a["win"].split("[")[0]
         al = window_aliases(ir)
@@ -347,6 +358,10 @@ def _situation(att, p, p2, bad, env):
         reads = {str(x) for x in names_read([n])}
         if buf not in reads and not a.get("accum"):
             return "write-only-block:unwritten-window-cells-stored-back"
+        if any(isinstance(x, LoopIR.WindowStmt) and str(getattr(x.rhs, "name", "")) == buf for x in walk(n)):
+            return "window-of-staged-buffer-defined-in-block-used-after"
+        if isinstance(n, LoopIR.If) and any(isinstance(x, LoopIR.Assign) and str(x.name) == buf for x in walk(n)) and "None" in bad:
+            return "conditional-first-write-suppresses-copy-in"
         for x in walk(n):
             if isinstance(x, LoopIR.Call) and any(str(y) == buf for y in names_read(x.args)):
                 return "staged-buffer-written-through-call-never-stored-back"
